@@ -266,29 +266,35 @@ class World:
         fn(step)
 
     # user ops run as their own tasks so that the timeline never blocks
-    def _spawn_user(self, step: dict, coro_fn) -> None:
-        cid = len(self.calls)
-        rec = {"id": cid, "op": step["op"], "step": step, "t_call": None, "t_ret": None, "result": None, "exc": None,
-               "seq_call": None, "seq_ret": None}
-        self.calls.append(rec)
+    def _spawn_user(self, step: dict, coro_fn, chain=()) -> None:
+        """One user task: the call of `step`, then - in the same task, with no yield of its own in between - the calls of
+        `chain` [(step, coro_fn), ...], each with its own call record (an application awaiting one command after another)."""
+        todo = []
+        for (st, fn) in [(step, coro_fn)] + list(chain):
+            cid = len(self.calls)
+            rec = {"id": cid, "op": st["op"], "step": st, "t_call": None, "t_ret": None, "result": None, "exc": None,
+                   "seq_call": None, "seq_ret": None}
+            self.calls.append(rec)
+            todo.append((cid, rec, st, fn))
 
         async def runner():
             for _ in range(step.get("yields", 0)):
                 await asyncio.sleep(0)
-            rec["t_call"] = self.loop._vtime
-            rec["seq_call"] = self.trace.add("user.call", k=step["op"], id=cid, d=_brief(step))
-            try:
-                rec["result"] = await coro_fn()
-                rec["t_ret"] = self.loop._vtime
-                rec["seq_ret"] = self.trace.add("user.return", k=step["op"], id=cid, r=_p(rec["result"]))
-            except asyncio.CancelledError:
-                raise
-            except adapter.AdapterError:
-                raise
-            except BaseException as exc:  # noqa: BLE001
-                rec["t_ret"] = self.loop._vtime
-                rec["exc"] = exc
-                rec["seq_ret"] = self.trace.add("user.raise", k=step["op"], id=cid, e=type(exc).__name__)
+            for (cid, rec, st, fn) in todo:
+                rec["t_call"] = self.loop._vtime
+                rec["seq_call"] = self.trace.add("user.call", k=st["op"], id=cid, d=_brief(st))
+                try:
+                    rec["result"] = await fn()
+                    rec["t_ret"] = self.loop._vtime
+                    rec["seq_ret"] = self.trace.add("user.return", k=st["op"], id=cid, r=_p(rec["result"]))
+                except asyncio.CancelledError:
+                    raise
+                except adapter.AdapterError:
+                    raise
+                except BaseException as exc:  # noqa: BLE001
+                    rec["t_ret"] = self.loop._vtime
+                    rec["exc"] = exc
+                    rec["seq_ret"] = self.trace.add("user.raise", k=st["op"], id=cid, e=type(exc).__name__)
 
         t = self.loop.create_task(runner())
         t.add_done_callback(self._user_done)
@@ -320,11 +326,16 @@ class World:
         self._spawn_user(step, lambda: self.sock.reset_connection())
 
     def op_user_send(self, step) -> None:
-        async def go():
-            msg = adapter.message_from(self.gen, step["msg"])
-            await self.sock.send(msg, adapter.policy_of(step.get("policy", "idem")))
+        def sender(st):
+            async def go():
+                msg = adapter.message_from(self.gen, st["msg"])
+                await self.sock.send(msg, adapter.policy_of(st.get("policy", "idem")))
+            return go
 
-        self._spawn_user(step, go)
+        # "then": further messages sent by the same task, one after the other
+        chain = [(dict(x, op="user.send", at=step.get("at"), chained=True), None) for x in step.get("then", [])]
+        chain = [(st, sender(st)) for (st, _f) in chain]
+        self._spawn_user(step, sender(step), chain)
 
     def op_user_send_object(self, step) -> None:
         """Send a message object captured earlier (C03 relay)."""
